@@ -30,7 +30,7 @@ def sig_matches(entry_sig, sig):
 
 
 def _all_parts(mod, prop, tier):
-    """the property's own parts plus the shared default-arguments part (mc/props/defaults.py) reporting-modes part (mc/props/reports.py) results-as-operands part (mc/props/compose.py) and path-shapes part (mc/props/paths.py),
+    """the property's own parts plus the shared default-arguments part (mc/props/defaults.py) reporting-modes part (mc/props/reports.py) results-as-operands part (mc/props/compose.py) path-shapes part (mc/props/paths.py) and two-threads part (mc/props/threads.py),
     where their tables have rows for it"""
     parts = list(mod.parts(tier))
     from mc.props import defaults
@@ -48,6 +48,10 @@ def _all_parts(mod, prop, tier):
     pp = paths.part(prop)
     if pp is not None:
         parts.append(pp)
+    from mc.props import threads
+    tp = threads.part(prop)
+    if tp is not None:
+        parts.append(tp)
     return parts
 
 
